@@ -320,6 +320,12 @@ class A32(Machine):
         else:
             self.setreg(name, v)
 
+    def interwork(self, t):
+        """loads into pc (pop / ldm) are interworking branches like bx"""
+        if self.profile in ("thumb1", "thumb2") and isinstance(t, LabelAddr):
+            raise Stuck("pc loaded with the address of a local label in Thumb code: bit 0 clear, the core leaves Thumb state")
+        self.jump_value(t)
+
     def reglist(self, op):
         m = re.match(r"^\{(.*)\}$", op.strip())
         if not m:
@@ -579,7 +585,7 @@ class A32(Machine):
                 if r != "pc":
                     self.setreg(r, v)
             if "pc" in regs:
-                self.jump_value(vals[regs.index("pc")])
+                self.interwork(vals[regs.index("pc")])
         elif op in ("movw", "movt"):
             if self.profile == "thumb1" or self.profile == "arm":
                 raise Stuck("movw/movt need ARMv6T2 / Thumb-2")
@@ -611,7 +617,7 @@ class A32(Machine):
                     if r != "pc":
                         self.setreg(r, v)
                 if "pc" in regs:
-                    self.jump_value(vals[regs.index("pc")])
+                    self.interwork(vals[regs.index("pc")])
             else:
                 for i, r in enumerate(regs):
                     self.mem_store(Ptr(base.region, base.off + 4 * i), self.regs[r])
@@ -647,7 +653,14 @@ class A32(Machine):
             self.setreg("lr", RetAddr(self.pc))
             self.jump(ops[0])
         elif op == "bx":
-            self.jump_value(self.regs[self.rn(ops[0])])
+            t = self.regs[self.rn(ops[0])]
+            # interworking branch: bit 0 of the target selects the instruction set.  An address made from `adr` / a table of label
+            # differences has bit 0 clear; in Thumb code that is a switch to ARM state (INVSTATE fault on the Thumb-only M profiles,
+            # Thumb bytes executed as ARM instructions elsewhere).  Only a return address written by bl/blx carries the Thumb bit.
+            if self.profile in ("thumb1", "thumb2") and isinstance(t, LabelAddr):
+                raise Stuck("bx to the address of a local label in Thumb code: bit 0 of the target is clear, the core leaves Thumb state "
+                            "(INVSTATE fault on ARMv6-M/ARMv7-M) - `mov pc, rN` is the branch that ignores bit 0")
+            self.jump_value(t)
         elif op == "nop":
             pass
         else:
